@@ -115,6 +115,11 @@ pub fn check(s: &Sched, st: &mut Stats) -> Result<(), String> {
                     st.discarded = true;
                     return Ok(());
                 }
+                for (k, r) in &after {
+                    if !crate::icao_table::reg_ok(*k, &r.reg) {
+                        return Err(format!("segment ending at event {}: the row of {:06X} shows country {:?} (a row must always carry the country of its address, also after it was silent)", i, k, r.reg));
+                    }
+                }
                 let heard_now: std::collections::BTreeSet<u32> = acc.iter().map(|(a, _)| *a).collect();
                 let ctx = |m: String| format!("segment ending at event {} (virtual t = {} ms, {} accepted frames, delete_after {} s, {}): {}", i, now, acc.len(), d, s.opts.label(), m);
                 // (ii) + (i) for aircraft heard in this segment
